@@ -532,7 +532,7 @@ func (c *Ctx) Inline(t *core.Term, depth int) *core.Term {
 							rets = only
 						}
 					}
-					if len(rets) == 1 && (len(fn.Blocks) <= 3 || idx >= 0 && len(fn.Blocks) <= 16) {
+					if len(rets) == 1 && !inlineAnchors[core.FuncName(fn)] && (len(fn.Blocks) <= 3 || idx >= 0 && len(fn.Blocks) <= 16) {
 						k := idx
 						if k < 0 && len(rets[0].Results) == 1 {
 							k = 0
